@@ -3,7 +3,7 @@
     frame on the chain of [e] that binds [x], [local_get st a x] the binding of [x] in frame [a]
     itself, [parent_of] the parent link; vectors are cells addressed by index in [vectors st]. *)
 From Coq Require Import ZArith List Bool.
-From RV Require Import Model.Common Model.Num Model.Value Model.Builtins Model.Eval Proofs.StoreProofs.
+From RV Require Import Model.Common Model.Num Model.Value Model.Builtins Model.Eval Spec.EvalSpec Proofs.StoreProofs Proofs.RegionProofs.
 Import ListNotations.
 
 (** set! changes the one binding lexical scoping designates - and nothing else *)
@@ -75,3 +75,12 @@ Proof. exact vector_alloc_fresh. Qed.
 Theorem C03_builtins_leave_frames : forall name args st r st', builtin_call name args st = (r, st') ->
   frames st' = frames st /\ length (vectors st) <= length (vectors st').
 Proof. exact builtin_call_frames. Qed.
+
+(** "and by no other", for whole computations: applying a procedure value touches only what is
+    reachable from it and from its arguments. If the closure, the arguments and everything stored in the
+    frames F and vectors V refer only to F and V, then whatever the call does - assignments, definitions,
+    vector mutation at any depth of nested calls - every frame and vector outside F and V is exactly as
+    before: closures from other calls and distinct vectors never observe it *)
+Theorem C03_call_effects_stay_in_region : forall st p args r st' F V,
+  app st p args r st' -> stok F V st -> vok F V p -> Forall (vok F V) args -> untouched F V st st'.
+Proof. exact outside_untouched_app. Qed.
